@@ -3,7 +3,9 @@
 package c12
 
 import (
+	"encoding/json"
 	"fmt"
+	"strings"
 
 	"git.torproject.org/pluggable-transports/snowflake.git/v2/common/messages"
 	"verif/vlib"
@@ -11,6 +13,46 @@ import (
 
 func (h *H) encFail(name string, rc rec, err error) {
 	h.res.Violatef("encode-error:"+name, rc, "encoder returned error for valid UTF-8 fields: %v", err)
+}
+
+// refWire: what an encoder produced must be a well-formed JSON object that
+// carries the original string fields under their documented names (read by
+// encoding/json, independently of the package's decoders). A field whose
+// original value is empty may be absent.
+func (h *H) refWire(name string, rc rec, data []byte, fields map[string]string) {
+	h.res.Obs("encoded_documents_read_by_the_reference_reader", 1)
+	if !json.Valid(data) {
+		h.res.Violatef("encoded-not-json:"+name, rc, "the encoder's output is not a well-formed JSON document")
+		return
+	}
+	var doc map[string]json.RawMessage
+	if err := json.Unmarshal(data, &doc); err != nil {
+		h.res.Violatef("encoded-not-object:"+name, rc, "the encoder's output is not a JSON object: %v", err)
+		return
+	}
+	for k, want := range fields {
+		var raw json.RawMessage
+		found := false
+		for dk, dv := range doc {
+			if strings.EqualFold(dk, k) {
+				raw, found = dv, true
+			}
+		}
+		if !found || string(raw) == "null" {
+			if want != "" {
+				h.res.Violatef("encoded-field-lost:"+name+":"+k, rc, "field %s (%d bytes) is absent from the encoder's output", k, len(want))
+			}
+			continue
+		}
+		var got string
+		if err := json.Unmarshal(raw, &got); err != nil {
+			h.res.Violatef("encoded-field-type:"+name+":"+k, rc, "field %s is not a JSON string in the encoder's output: %v", k, err)
+			continue
+		}
+		if got != want {
+			h.res.Violatef("encoded-field-differs:"+name+":"+k, rc, "field %s reads back as %q, original %q", k, clipS(got), clipS(want))
+		}
+	}
 }
 
 func (h *H) rtPollReq(r *vlib.Rand, id string) {
@@ -46,6 +88,7 @@ func (h *H) rtPollReq(r *vlib.Rand, id string) {
 		return
 	}
 	rc.Input, rc.Len = clipS(string(data)), len(data)
+	h.refWire(nPollReq, rc, data, map[string]string{"Sid": sid, "Type": typ, "NAT": nat, "AcceptedRelayPattern": pattern})
 	want, feat := wantAccept, ""
 	e := pollReqExp{sid: sid, typeIn: typ, clients: clients, clientsKnown: true, pattern: pattern, aware: true, awareKnown: true}
 	var badNAT bool
@@ -97,7 +140,7 @@ func (h *H) rtPollResp(r *vlib.Rand, id string) {
 	}
 	relay := genStr(r, 65536)
 	reason := []string{"no match", "no match", "no match", "", "client match", "incorrect relay pattern"}[r.Intn(6)]
-	if r.Chance(1, 6) {
+	if r.Chance(1, 3) {
 		reason = genStr(r, 2000)
 	}
 	plain := r.Chance(1, 4)
@@ -121,6 +164,12 @@ func (h *H) rtPollResp(r *vlib.Rand, id string) {
 		return
 	}
 	rc.Input, rc.Len = clipS(string(data)), len(data)
+	if success {
+		h.refWire(nPollResp, rc, data, map[string]string{"Status": "client match", "Offer": offer, "NAT": nat, "RelayURL": relay})
+	} else {
+		h.refWire(nPollResp, rc, data, map[string]string{"Status": reason})
+		h.res.Obs("failure_responses_with_reason_class:"+reasonClass(reason), 1)
+	}
 	want, feat := wantAccept, ""
 	var e pollRespOut
 	if success {
@@ -193,6 +242,7 @@ func (h *H) rtAnsReq(r *vlib.Rand, id string) {
 		return
 	}
 	rc.Input, rc.Len = clipS(string(data)), len(data)
+	h.refWire(nAnsReq, rc, data, map[string]string{"Sid": sid, "Answer": answer})
 	want, feat := wantAccept, ""
 	switch {
 	case sid == "" && answer == "":
@@ -331,6 +381,7 @@ func (h *H) rtCliResp(r *vlib.Rand, id string) {
 		return
 	}
 	rc.Input, rc.Len = clipS(string(data)), len(data)
+	h.refWire(nCliResp, rc, data, map[string]string{"answer": answer, "error": errS})
 	want, feat := wantAccept, ""
 	switch {
 	case answer == "" && errS == "":
@@ -348,4 +399,17 @@ func (h *H) rtCliResp(r *vlib.Rand, id string) {
 		strClass(h.res, errS)
 		h.res.Distinct(nCliResp + hashKey(data))
 	}
+}
+
+func reasonClass(s string) string {
+	switch {
+	case s == "no match" || s == "client match" || s == "incorrect relay pattern" || s == "":
+		return "stock"
+	}
+	for _, c := range s {
+		if c < 0x20 || c == 0x7f || c > 0xffff {
+			return "custom-with-control-or-astral"
+		}
+	}
+	return "custom-plain"
 }
